@@ -81,7 +81,14 @@ impl PercentageWithCapProofData {
             return Err(ProofGenerationError::InconsistentInput);
         }
         // Verify delta commitment
-        if *delta_commitment != Pedersen::with(delta_amount, delta_opening) {
+        //
+        // The delta commitment is only required to open to `delta_amount` when the percentage
+        // amount is below the cap. At the cap, the delta commitment is derived homomorphically
+        // from the fee and amount commitments and does not, in general, open to a `u64`; that
+        // branch of the proof does not use the delta opening.
+        if percentage_amount < max_value
+            && *delta_commitment != Pedersen::with(delta_amount, delta_opening)
+        {
             return Err(ProofGenerationError::InconsistentInput);
         }
         // Verify claimed commitment
